@@ -54,6 +54,41 @@ def oracle_prof(case, impl):
     d = kv("x " + impl)
     src, dst, mac = _opt(f[1]), _opt(f[2]), unhex(f[3])
     entries = [] if d["list"] == "-" else [_entry(t) for t in d["list"].split(",")]
+    # the stored list itself must be what Set's rule gives for the configured entries, in order:
+    # an entry replaces an earlier one only when it has the SAME condition (same MAC, same interface
+    # addresses, same subnet i.e. same network AND mask, or both unconditional)
+    exp = []
+    for tok in f[4:]:
+        g = tok.split(";")
+        if len(g) != 6:
+            exp = None
+            break
+        e = _entry(";".join(g[1:5]))
+        # what stays in the store: the parsed entry with DestIPs as the harness left them (g[5])
+        stored = dict(e, dests=[] if g[5] == "-" else [unhex(x) for x in g[5].split("+")])
+        def same(a, b):
+            if len(a["mac"]) > 0 and len(b["mac"]) > 0 and a["mac"] == b["mac"]:
+                return True
+            if a["dests"] and b["dests"] and len(a["dests"]) == len(b["dests"]) and all(_ip_eq(x, y) for x, y in zip(a["dests"], b["dests"])):
+                return True
+            if a["pfx"] is not None and b["pfx"] is not None:
+                na, nb = _norm(a["pfx"][0]), _norm(b["pfx"][0])
+                ma = a["pfx"][1][12:] if len(a["pfx"][1]) == 16 and na and na[0] == 4 else a["pfx"][1]
+                mb = b["pfx"][1][12:] if len(b["pfx"][1]) == 16 and nb and nb[0] == 4 else b["pfx"][1]
+                if na == nb and ma == mb:
+                    return True
+            ca = a["pfx"] is not None or len(a["mac"]) > 0 or len(a["dests"]) > 0
+            cb = b["pfx"] is not None or len(b["mac"]) > 0 or len(b["dests"]) > 0
+            return (not ca) and (not cb)
+        for k, old in enumerate(exp):
+            if same(e, old["parsed"]):
+                exp[k] = dict(parsed=stored, id=e["id"])
+                break
+        else:
+            exp.append(dict(parsed=stored, id=e["id"]))
+    if exp is not None and [x["id"] for x in exp] != [x["id"] for x in entries]:
+        return "stored profile list %s is not the configured list under the replace-same-condition rule %s" % (
+            [x["id"] for x in entries], [x["id"] for x in exp])
     want = None
     last_default = "-"
     for e in entries:
